@@ -15,7 +15,7 @@ import (
 func init() {
 	register(&Property{
 		ID:        "C05",
-		Technique: "typestate over the reader loop and the writer sink, non-nil provenance of termination causes, restricted result-use check on the transport-facing API, who-may-access",
+		Technique: "typestate over the reader loop and the writer sink, non-nil provenance of termination causes, restricted result-use check on the transport-facing API, who-may-access; tested-then-dropped error (contradiction) check and interprocedural lock-pairing check over the packages the property is anchored in; error-filter (error→error) return analysis",
 		Explanation: "Structural conditions of 'a transport failure is contained': " +
 			"(R1) every read error and every packet-handling error in the reader loop terminates the manager and ends the loop; the loop announces its exit by a first-registered defer; " +
 			"(R4) the writer drops its buffer after every sink write and returns the sink's error; " +
@@ -48,6 +48,7 @@ func init() {
 			{ID: "C05.S6", Alias: "C04.R6"},
 			{ID: "C05.S7", Alias: "C03.R4"},
 			{ID: "C05.S8", Alias: "C03.R5"},
+			{ID: "C05.S13", Doc: "the connection reader never parks for a stream that will not be created (only an invoke it forwarded makes it wait): a parked reader stops reading, so a transport failure or the peer's close is never noticed (= C06.R3)", Alias: "C06.R3"},
 			{ID: "C05.S12", Doc: "containing a transport failure takes no lock cycle: the manager's terminate path and the writer never wait for each other (a failed write that cancels the stream itself while the writer's mutex is held deadlocks the connection)", Alias: "C04.W2"},
 			{ID: "C05.S9", Doc: "the reader is released (pdone) for every packet NewServerStream received, also when creating the stream fails after termination: otherwise the reader never exits and Close hangs", Alias: "C06.R5"},
 		}, disciplineRules("C05", "drpcwire", "drpcstream", "drpcmanager", "drpcconn", "drpcserver")...),
